@@ -333,7 +333,13 @@ def c01_block_queries(frame_n=576, K=2, hello_pairs=((0, 0), (40, 40))):
     qs = []
     for (h, s) in hello_pairs:
         qs.append(q_safety_class(0, ["answerHello"], "discover_h%d_s%d" % (h, s), K=K, frame_n=frame_n, defines=["HOSTLEN=%d" % h, "SSIDLEN=%d" % s], unwind=max(K + 4, 8)))
-    qs.append(q_safety_class(2, ["parseEmit"], "emit", K=K, frame_n=frame_n, unwind=maxd + 2))
+    if frame_n <= 1500:
+        qs.append(q_safety_class(2, ["parseEmit"], "emit", K=K, frame_n=frame_n, unwind=maxd + 2))
+    else:
+        # undecomposed Emit path does not finish at 656 descriptors: descriptor walk with recording stub + real sendProbeMsg alone (assume/guarantee)
+        q = q_emit_loop(frame_n, valid_kinds=False, K=K)
+        q.timeout = 3000; q.mem_gb = 24
+        qs.append(q)
     qs.append(q_safety_class(3, ["parseProbe"], "probe", K=K, frame_n=frame_n))
     qs.append(q_safety_class(6, ["parseQuery"], "query", K=K, frame_n=frame_n))
     qs.append(q_safety_class(8, [], "reset", K=K, frame_n=frame_n))
